@@ -1,3 +1,598 @@
 package main
 
-func replayModel(g *Gen, o *Obligation, rf *ReplayFile) {}
+// Replay of a refuting model on the real code.
+//
+// 1. the failing query is re-run asking for the values of the function's
+//    inputs (and, for strings and []any, their lengths and first elements);
+// 2. the values are rendered as Go literals in an in-package test that calls
+//    the real function under recover and prints its results with type tags;
+//    the test is injected with `go test -overlay` (nothing is written to the
+//    repository);
+// 3. a safety obligation is confirmed when the real call panics; a
+//    postcondition is confirmed when the clause, evaluated by the solver on
+//    the concrete inputs and the concrete outputs of the real run (library
+//    functions the spec leaves uninterpreted are pinned to what the real run
+//    printed for them), is false.
+
+import (
+	"encoding/json"
+	"fmt"
+	"go/types"
+	"math"
+	"os"
+	"os/exec"
+	"path/filepath"
+	"strconv"
+	"strings"
+	"time"
+
+	"golang.org/x/tools/go/ssa"
+)
+
+type goVal struct {
+	lit  string // Go literal
+	smt  string // SMT term of the same value (for scalars)
+	ok   bool
+	desc string
+}
+
+func parseBV(a string) (uint64, int, bool) {
+	switch {
+	case strings.HasPrefix(a, "#x"):
+		u, err := strconv.ParseUint(a[2:], 16, 64)
+		return u, (len(a) - 2) * 4, err == nil
+	case strings.HasPrefix(a, "#b"):
+		u, err := strconv.ParseUint(a[2:], 2, 64)
+		return u, len(a) - 2, err == nil
+	}
+	return 0, 0, false
+}
+
+func signed(u uint64, w int) int64 {
+	if w < 64 && u&(1<<uint(w-1)) != 0 {
+		return int64(u) - (1 << uint(w))
+	}
+	return int64(u)
+}
+
+// decodeFloat: (fp s e m) | (_ +zero e s) | (_ NaN ..) ...
+func decodeFloat(n *sx, bits int) (float64, bool) {
+	if n.list == nil {
+		return 0, false
+	}
+	if len(n.list) == 4 && n.list[0].atom == "fp" {
+		s, _, ok1 := parseBV(n.list[1].atom)
+		e, ew, ok2 := parseBV(n.list[2].atom)
+		m, mw, ok3 := parseBV(n.list[3].atom)
+		if !ok1 || !ok2 || !ok3 {
+			return 0, false
+		}
+		if ew == 11 && mw == 52 {
+			return math.Float64frombits(s<<63 | e<<52 | m), true
+		}
+		if ew == 8 && mw == 23 {
+			return float64(math.Float32frombits(uint32(s<<31 | e<<23 | m))), true
+		}
+		return 0, false
+	}
+	if len(n.list) == 4 && n.list[0].atom == "_" {
+		switch n.list[1].atom {
+		case "+zero":
+			return 0, true
+		case "-zero":
+			return math.Copysign(0, -1), true
+		case "+oo":
+			return math.Inf(1), true
+		case "-oo":
+			return math.Inf(-1), true
+		case "NaN":
+			return math.NaN(), true
+		}
+	}
+	return 0, false
+}
+
+func floatLit(f float64, bits int) string {
+	switch {
+	case math.IsNaN(f):
+		if bits == 32 {
+			return "float32(math.NaN())"
+		}
+		return "math.NaN()"
+	case math.IsInf(f, 1):
+		if bits == 32 {
+			return "float32(math.Inf(1))"
+		}
+		return "math.Inf(1)"
+	case math.IsInf(f, -1):
+		if bits == 32 {
+			return "float32(math.Inf(-1))"
+		}
+		return "math.Inf(-1)"
+	}
+	if bits == 32 {
+		return fmt.Sprintf("math.Float32frombits(0x%x)", math.Float32bits(float32(f)))
+	}
+	return fmt.Sprintf("math.Float64frombits(0x%x)", math.Float64bits(f))
+}
+
+// typeExpr renders a type as Go source valid inside package pkg.
+func typeExpr(t types.Type, pkg *types.Package) string {
+	return types.TypeString(t, func(p *types.Package) string {
+		if p == pkg {
+			return ""
+		}
+		return p.Name()
+	})
+}
+
+type replayCtx struct {
+	g      *Gen
+	fv     *FnV
+	values map[string]*sx // get-value results by term text
+	strs   map[string]string
+	pkg    *types.Package
+}
+
+// strOf builds a concrete string for a Str-sorted term from str!len / str!at values in the model.
+func (rc *replayCtx) strOf(term string) (string, bool) {
+	ln, ok := rc.values["(str!len "+term+")"]
+	if !ok {
+		return "", false
+	}
+	u, _, ok := parseBV(ln.atom)
+	if !ok || u > 64 {
+		return "", false
+	}
+	b := make([]byte, u)
+	for i := range b {
+		b[i] = 'a'
+		if v, ok := rc.values[fmt.Sprintf("(str!at %s %s)", term, bvLit(int64(i), 64))]; ok {
+			if c, _, ok := parseBV(v.atom); ok {
+				b[i] = byte(c)
+			}
+		}
+	}
+	return string(b), true
+}
+
+// decode a model value of Go type t (given as parsed s-expression) into a Go literal.
+func (rc *replayCtx) decode(n *sx, t types.Type, term string) goVal {
+	g := rc.g
+	s := g.sortOf(t)
+	tn := typeExpr(t, rc.pkg)
+	switch {
+	case s == sBool:
+		return goVal{lit: tn + "(" + n.atom + ")", smt: n.atom, ok: n.atom == "true" || n.atom == "false"}
+	case isBV(s):
+		u, w, ok := parseBV(n.atom)
+		if !ok {
+			return goVal{}
+		}
+		if isSigned(t) {
+			return goVal{lit: fmt.Sprintf("%s(%d)", tn, signed(u, w)), smt: n.atom, ok: true}
+		}
+		return goVal{lit: fmt.Sprintf("%s(%d)", tn, u), smt: n.atom, ok: true}
+	case s == sF64 || s == sF32:
+		bits := 64
+		if s == sF32 {
+			bits = 32
+		}
+		f, ok := decodeFloat(n, bits)
+		if !ok {
+			return goVal{}
+		}
+		return goVal{lit: tn + "(" + floatLit(f, bits) + ")", smt: n.String(), ok: true}
+	case s == sStr:
+		str, ok := rc.strOf(term)
+		if !ok {
+			return goVal{}
+		}
+		return goVal{lit: tn + "(" + strconv.Quote(str) + ")", smt: rc.strConst(str), ok: true}
+	case s == sAny:
+		if n.list == nil {
+			if n.atom == "a!nil" {
+				return goVal{lit: "nil", smt: "a!nil", ok: true}
+			}
+			return goVal{}
+		}
+		ctor := n.list[0].atom
+		for _, c := range g.anyOrder {
+			if c.ctor != ctor {
+				continue
+			}
+			if c.boxed || c.sort == sRef || c.sort == sSlice {
+				return goVal{}
+			}
+			inner := rc.decode(n.list[1], c.typ, "("+c.sel+" "+term+")")
+			if !inner.ok {
+				return goVal{}
+			}
+			return goVal{lit: "any(" + inner.lit + ")", smt: "(" + c.ctor + " " + inner.smt + ")", ok: true}
+		}
+	}
+	return goVal{}
+}
+
+func (rc *replayCtx) strConst(s string) string {
+	if n, ok := rc.strs[s]; ok {
+		return n
+	}
+	n := fmt.Sprintf("rs!%d", len(rc.strs))
+	rc.strs[s] = n
+	return n
+}
+
+func parseGetValue(out string) map[string]*sx {
+	res := map[string]*sx{}
+	i := strings.Index(out, "((")
+	if i < 0 {
+		return res
+	}
+	n, _ := readSx(out, i)
+	if n == nil {
+		return res
+	}
+	for _, p := range n.list {
+		if len(p.list) == 2 {
+			res[p.list[0].String()] = p.list[1]
+		}
+	}
+	return res
+}
+
+func replayModel(g *Gen, o *Obligation, rf *ReplayFile) {
+	fv := o.fv
+	fn := fv.fn
+	if fn.Parent() != nil || fn.Signature.Recv() != nil || o.Script == "" {
+		rf.Note = "replay: only package-level functions are replayed automatically (closures and methods need their receiver/bindings rebuilt)"
+		return
+	}
+	if o.Kind != "S" && o.Kind != "E" {
+		return
+	}
+	rc := &replayCtx{g: g, fv: fv, strs: map[string]string{}, pkg: fv.pkgTypes()}
+	// 1. re-run asking for everything needed to rebuild the inputs
+	var gv []string
+	for i, p := range fn.Params {
+		t := fv.paramTerms[i]
+		gv = append(gv, t)
+		switch g.sortOf(p.Type()) {
+		case sStr:
+			gv = append(gv, strTerms(t)...)
+		case sAny:
+			for _, c := range g.anyOrder {
+				if c.sort == sStr {
+					gv = append(gv, strTerms("("+c.sel+" "+t+")")...)
+				}
+			}
+		}
+	}
+	script := o.Script
+	if j := strings.LastIndex(script, "(get-value"); j >= 0 {
+		script = script[:j]
+	}
+	// make sure str!len/str!at are declared even when the cone did not contain them
+	if !strings.Contains(script, "(declare-fun str!len") {
+		script = strings.Replace(script, "(declare-sort Str 0)", "(declare-sort Str 0)\n(declare-fun str!len (Str) (_ BitVec 64))", 1)
+	}
+	if !strings.Contains(script, "(declare-fun str!at") {
+		script = strings.Replace(script, "(declare-sort Str 0)", "(declare-sort Str 0)\n(declare-fun str!at (Str (_ BitVec 64)) (_ BitVec 8))", 1)
+	}
+	script += "(get-value (" + strings.Join(gv, " ") + "))\n"
+	res, out, _ := runSolver(solvers[0], script, 30, "replay")
+	if res != "sat" {
+		res, out, _ = runSolver(solvers[1], script, 30, "replay")
+	}
+	if workDir != "" {
+		os.RemoveAll(workDir)
+		workDir = ""
+	}
+	if res != "sat" {
+		rf.Note = "replay: the model could not be re-obtained with input values (" + res + ")"
+		return
+	}
+	rc.values = parseGetValue(out)
+	rf.Inputs = map[string]string{}
+	var args []string
+	var argSMT []string
+	for i, p := range fn.Params {
+		t := fv.paramTerms[i]
+		n, ok := rc.values[t]
+		if !ok {
+			// not in the cone: any value will do
+			n = nil
+		}
+		var v goVal
+		if n != nil {
+			v = rc.decode(n, p.Type(), t)
+		} else {
+			v = rc.zeroVal(p.Type())
+		}
+		if !v.ok {
+			rf.Note = fmt.Sprintf("replay: input %s of type %s could not be rebuilt from the model (heap-shaped inputs are not decoded)", p.Name(), p.Type())
+			return
+		}
+		rf.Inputs[p.Name()] = v.lit
+		args = append(args, v.lit)
+		argSMT = append(argSMT, v.smt)
+	}
+	// 2. the test
+	callee := fn.Name()
+	if ta := fn.TypeArgs(); len(ta) > 0 {
+		var ts []string
+		for _, t := range ta {
+			ts = append(ts, typeExpr(t, rc.pkg))
+		}
+		callee = fn.Origin().Name() + "[" + strings.Join(ts, ", ") + "]"
+	}
+	nres := fn.Signature.Results().Len()
+	var lhs []string
+	for i := 0; i < nres; i++ {
+		lhs = append(lhs, fmt.Sprintf("r%d", i))
+	}
+	var b strings.Builder
+	fmt.Fprintf(&b, "package %s\n\nimport (\n\t\"fmt\"\n\t\"math\"\n\t\"strings\"\n\t\"testing\"\n)\n\nvar _ = math.NaN\nvar _ = strings.Compare\n\n", rc.pkg.Name())
+	b.WriteString("func zzTag(v any) string {\n\tswitch x := v.(type) {\n\tcase nil:\n\t\treturn \"nil|\"\n\tcase float64:\n\t\treturn fmt.Sprintf(\"float64|%x\", math.Float64bits(x))\n\tcase float32:\n\t\treturn fmt.Sprintf(\"float32|%x\", math.Float32bits(x))\n\tcase error:\n\t\treturn \"error|\" + fmt.Sprintf(\"%q\", x.Error())\n\tcase string:\n\t\treturn fmt.Sprintf(\"string|%q\", x)\n\tdefault:\n\t\treturn fmt.Sprintf(\"%T|%v\", v, v)\n\t}\n}\n\n")
+	b.WriteString("func TestZZVerifReplay(t *testing.T) {\n\tdefer func() {\n\t\tif r := recover(); r != nil {\n\t\t\tfmt.Printf(\"ZZ-PANIC %v\\n\", r)\n\t\t}\n\t}()\n")
+	for i, a := range args {
+		fmt.Fprintf(&b, "\ta%d := %s\n", i, a)
+	}
+	var an []string
+	for i := range args {
+		an = append(an, fmt.Sprintf("a%d", i))
+	}
+	call := callee + "(" + strings.Join(an, ", ") + ")"
+	if nres > 0 {
+		fmt.Fprintf(&b, "\t%s := %s\n", strings.Join(lhs, ", "), call)
+		for i := range lhs {
+			fmt.Fprintf(&b, "\tfmt.Printf(\"ZZ-RESULT %d %%s\\n\", zzTag(r%d))\n", i, i)
+		}
+	} else {
+		fmt.Fprintf(&b, "\t%s\n", call)
+	}
+	// Go twins of functions the spec leaves uninterpreted
+	for i, p := range fn.Params {
+		if g.sortOf(p.Type()) == sAny {
+			fmt.Fprintf(&b, "\tfmt.Printf(\"ZZ-FMTV %d %%q\\n\", fmt.Sprintf(\"%%v\", a%d))\n", i, i)
+		}
+	}
+	b.WriteString("\tfmt.Println(\"ZZ-DONE\")\n}\n")
+	rf.ReplayTest = b.String()
+	pkgDir := g.repo
+	if rel := strings.TrimPrefix(rc.pkg.Path(), modPath); rel != "" {
+		pkgDir = filepath.Join(g.repo, strings.TrimPrefix(rel, "/"))
+	}
+	outText, err := runOverlayTest(g.repo, pkgDir, b.String())
+	rf.ReplayOut = outText
+	rf.ReplayCmd = "go test -overlay <generated test> -vet=off -timeout 60s -run TestZZVerifReplay " + pkgDir
+	if err != nil && !strings.Contains(outText, "ZZ-") {
+		rf.Note = "replay: the generated test did not run: " + err.Error()
+		return
+	}
+	panicked := strings.Contains(outText, "ZZ-PANIC")
+	if o.Kind == "S" {
+		rf.Confirmed = panicked
+		if panicked {
+			rf.Note = "confirmed: the real function panics on the decoded inputs"
+		}
+		return
+	}
+	if panicked {
+		rf.Note = "replay: the real function panicked on these inputs instead of returning"
+		return
+	}
+	// 3. evaluate the clause on the concrete inputs and outputs
+	if o.ClauseRef == nil {
+		return
+	}
+	rc.evalClause(o, rf, outText, argSMT)
+}
+
+func strTerms(t string) []string {
+	out := []string{"(str!len " + t + ")"}
+	for i := 0; i < 6; i++ {
+		out = append(out, fmt.Sprintf("(str!at %s %s)", t, bvLit(int64(i), 64)))
+	}
+	return out
+}
+
+func (rc *replayCtx) zeroVal(t types.Type) goVal {
+	s := rc.g.sortOf(t)
+	tn := typeExpr(t, rc.pkg)
+	switch {
+	case s == sBool:
+		return goVal{lit: "false", smt: "false", ok: true}
+	case isBV(s):
+		return goVal{lit: tn + "(0)", smt: bvLit(0, bvWidth(s)), ok: true}
+	case s == sF64:
+		return goVal{lit: tn + "(0)", smt: "(_ +zero 11 53)", ok: true}
+	case s == sAny:
+		return goVal{lit: "nil", smt: "a!nil", ok: true}
+	case s == sStr:
+		return goVal{lit: tn + "(\"\")", smt: "str!empty", ok: true}
+	}
+	return goVal{}
+}
+
+func runOverlayTest(repo, pkgDir, src string) (string, error) {
+	dir, err := os.MkdirTemp("", "govc-replay-")
+	if err != nil {
+		return "", err
+	}
+	defer os.RemoveAll(dir)
+	testFile := filepath.Join(dir, "zz_verif_replay_test.go")
+	if err := os.WriteFile(testFile, []byte(src), 0o644); err != nil {
+		return "", err
+	}
+	ov := map[string]map[string]string{"Replace": {filepath.Join(pkgDir, "zz_verif_replay_test.go"): testFile}}
+	ob, _ := json.Marshal(ov)
+	ovFile := filepath.Join(dir, "overlay.json")
+	os.WriteFile(ovFile, ob, 0o644)
+	cmd := exec.Command("go", "test", "-overlay", ovFile, "-vet=off", "-count=1", "-v", "-timeout", "60s", "-run", "TestZZVerifReplay", ".")
+	cmd.Dir = pkgDir
+	cmd.Env = append(os.Environ(), "GOFLAGS=-mod=mod", "GOPROXY=off", "GOSUMDB=off", "GOTOOLCHAIN=local")
+	done := make(chan struct{})
+	var out []byte
+	go func() { out, err = cmd.CombinedOutput(); close(done) }()
+	select {
+	case <-done:
+	case <-time.After(150 * time.Second):
+		cmd.Process.Kill()
+		<-done
+	}
+	return string(out), err
+}
+
+// evalClause asks the solver whether the clause is false on the concrete run.
+func (rc *replayCtx) evalClause(o *Obligation, rf *ReplayFile, outText string, argSMT []string) {
+	fv := rc.fv
+	g := rc.g
+	fn := fv.fn
+	// concrete results
+	var results []*SV
+	resTypes := fn.Signature.Results()
+	for i := 0; i < resTypes.Len(); i++ {
+		var line string
+		for _, l := range strings.Split(outText, "\n") {
+			if strings.HasPrefix(l, fmt.Sprintf("ZZ-RESULT %d ", i)) {
+				line = strings.TrimPrefix(l, fmt.Sprintf("ZZ-RESULT %d ", i))
+			}
+		}
+		if line == "" {
+			rf.Note = "replay: no result printed by the real run"
+			return
+		}
+		term, ok := rc.encodeResult(line, resTypes.At(i).Type())
+		if !ok {
+			rf.Note = "replay: result " + line + " cannot be expressed as a closed term"
+			return
+		}
+		results = append(results, fv.fromTerm(term, resTypes.At(i).Type()))
+	}
+	// bind parameters to their concrete values
+	saved := map[string]*SV{}
+	for i, p := range fn.Params {
+		name := p.Name()
+		saved[name] = fv.params[name]
+		fv.params[name] = fv.fromTerm(argSMT[i], p.Type())
+	}
+	env := fv.contractEnv(fv.entry, fv.entry, results)
+	t, err := env.evalBool(o.ClauseRef.Text)
+	for n, sv := range saved {
+		fv.params[n] = sv
+	}
+	if err != nil {
+		rf.Note = "replay: clause evaluation: " + err.Error()
+		return
+	}
+	// pin the uninterpreted functions to what the real run printed
+	var facts []string
+	for i, p := range fn.Params {
+		if g.sortOf(p.Type()) != sAny {
+			continue
+		}
+		for _, l := range strings.Split(outText, "\n") {
+			if strings.HasPrefix(l, fmt.Sprintf("ZZ-FMTV %d ", i)) {
+				s, err := strconv.Unquote(strings.TrimPrefix(l, fmt.Sprintf("ZZ-FMTV %d ", i)))
+				if err == nil {
+					facts = append(facts, eq(app("spec!FmtV", argSMT[i]), rc.strConst(s)))
+				}
+			}
+		}
+	}
+	var decls []string
+	var names []string
+	var vals []string
+	for s, n := range rc.strs {
+		decls = append(decls, fmt.Sprintf("(declare-const %s Str)", n))
+		names = append(names, n)
+		vals = append(vals, s)
+	}
+	for i := range names {
+		for j := range names {
+			facts = append(facts, eq(app("str!cmp", names[i], names[j]), smtInt(fmt.Sprint(strings.Compare(vals[i], vals[j])))))
+		}
+	}
+	script := fv.c.Script([]string{and(append(facts, not(t))...)}, nil)
+	// declarations of the concrete strings go right after the Str sort
+	script = strings.Replace(script, "(declare-sort Str 0)", "(declare-sort Str 0)\n"+strings.Join(decls, "\n"), 1)
+	res, _, _ := runSolver(solvers[0], script, 30, "replay-eval")
+	if res != "sat" && res != "unsat" {
+		res, _, _ = runSolver(solvers[3], script, 30, "replay-eval")
+	}
+	if workDir != "" {
+		os.RemoveAll(workDir)
+		workDir = ""
+	}
+	switch res {
+	case "sat":
+		rf.Confirmed = true
+		rf.Note = "confirmed: the clause, evaluated on the inputs of the model and on what the real function returned for them, is false"
+	case "unsat":
+		rf.Note = "replay: the real function satisfies the clause on the decoded inputs (the model does not transfer; typically a value the decoder had to choose freely)"
+	default:
+		rf.Note = "replay: the solver could not evaluate the clause on the concrete run (" + res + ")"
+	}
+}
+
+// encodeResult turns a printed result (`type|value`) into an SMT term of Go type t.
+func (rc *replayCtx) encodeResult(line string, t types.Type) (string, bool) {
+	g := rc.g
+	parts := strings.SplitN(line, "|", 2)
+	if len(parts) != 2 {
+		return "", false
+	}
+	dyn, val := parts[0], parts[1]
+	scalar := func(typ types.Type, v string) (string, bool) {
+		s := g.sortOf(typ)
+		switch {
+		case s == sBool:
+			return v, v == "true" || v == "false"
+		case isBV(s):
+			if i, err := strconv.ParseInt(v, 10, 64); err == nil {
+				return bvLit(i, bvWidth(s)), true
+			}
+			if u, err := strconv.ParseUint(v, 10, 64); err == nil {
+				return bvULit(u, bvWidth(s)), true
+			}
+		case s == sF64:
+			if u, err := strconv.ParseUint(v, 16, 64); err == nil {
+				return f64Lit(math.Float64frombits(u)), true
+			}
+		case s == sF32:
+			if u, err := strconv.ParseUint(v, 16, 32); err == nil {
+				return f32Lit(math.Float32frombits(uint32(u))), true
+			}
+		case s == sStr:
+			if str, err := strconv.Unquote(v); err == nil {
+				return rc.strConst(str), true
+			}
+		}
+		return "", false
+	}
+	if g.sortOf(t) != sAny {
+		return scalar(t, val)
+	}
+	if dyn == "nil" {
+		return "a!nil", true
+	}
+	if dyn == "error" {
+		return "", false
+	}
+	for _, c := range g.anyOrder {
+		if typeExpr(c.typ, rc.pkg) == dyn || shortTypeName(c.typ) == dyn {
+			if c.boxed || c.sort == sRef || c.sort == sSlice {
+				return "", false
+			}
+			inner, ok := scalar(c.typ, val)
+			if !ok {
+				return "", false
+			}
+			return "(" + c.ctor + " " + inner + ")", true
+		}
+	}
+	return "", false
+}
+
+var _ = ssa.BuilderMode(0)
